@@ -63,8 +63,30 @@ def width (a : Arch) : FieldKind → Nat
 
 end Arch
 
+/-- decimal prefix of a string (the `[0-9]+` group of the dynamic-family name patterns) -/
+def leadingNat (s : String) : Option Nat :=
+  let ds := s.toList.takeWhile Char.isDigit
+  if ds.isEmpty then none else (String.ofList ds).toNat?
+
+/-- Dynamically created opcode families (pkg/procbuilder/dynamical_*.go, dynop_*.go), recognised
+    by name like their `MatchName`: rsets<N>; the fixed-point / FloPoCo / FXP / linear-quantiser
+    arithmetic (two registers); callo/calla/ret<N><name>; push/pull<N><name>. -/
+def dynLayout (op : String) : Option (List FieldKind) :=
+  if op.startsWith "rsets" then
+    match leadingNat (op.drop 5).toString with
+    | some n => some [.reg, .const n]
+    | none => none
+  else if (["multfps", "addfps", "divfps", "multflpe", "addflpe", "divflpe", "multfxps", "addfxps", "divfxps",
+            "multlqs", "addlqs", "divlqs"].any fun p => op.startsWith p) then some [.reg, .reg]
+  else if op.startsWith "callo" then some [.rom]
+  else if op.startsWith "calla" then some [.ram]
+  else if op.startsWith "ret" ∧ (leadingNat (op.drop 3).toString).isSome then some []
+  else if (op.startsWith "push" ∨ op.startsWith "pull") ∧ (leadingNat (op.drop 4).toString).isSome then some [.reg]
+  else none
+
 /-- The layout table.  `none` = opcode not modelled (reported as `unmodelled`, never silently
-    skipped).  Opcodes with shared-object operands and the dynamic families are not in the table. -/
+    skipped).  Opcodes with shared-object operands are not in the table; the dynamic families are
+    recognised by name (`dynLayout`). -/
 def layout (op : String) : Option (List FieldKind) :=
   if op ∈ ["adc", "add", "addf", "addf16", "addp", "and", "chc", "cmpr", "cmprlt", "cpy", "div", "divf",
            "divf16", "divp", "mod", "mulc", "mult", "multf", "multf16", "multp", "nand", "nor", "not",
@@ -84,7 +106,7 @@ def layout (op : String) : Option (List FieldKind) :=
   else if op = "rset" then some [.reg, .imm]
   else if op = "r2v" then some [.reg, .const 8]
   else if op = "tsp" then some [.reg, .loc, .const 8]
-  else none
+  else dynLayout op
 
 /-- the fields `Op_get_instruction_len` *declares*; differs from `layout` only for `m2rri`, whose
     assembler emits two register fields while its declared length counts a register and a ROM
